@@ -218,6 +218,11 @@ def run_C04(ctx):
     rng = ctx.rng
     progs = corpus_progs(ctx) + [G.gen_labware_program(rng, {"p_fail_each": 0.12, "nops": (1, 20), "p_trough": 0.45}) for _ in range(ctx.n(260))]
     stateful(ctx, res, "labware", progs, ["ledger"], stop_on_error=False)
+    # the same bookkeeping through BaseWorklist.aspirate / dispense (their own flattening and broadcast of the
+    # arguments, incl. wells and volumes of different dimensionality), on both devices
+    prof = {"p_fail": 0.15, "fail_kinds": ["aspirate", "dispense"], "kinds": ["aspirate", "dispense"], "nops": (1, 10), "p_trough": 0.45}
+    progs = [G.gen_worklist_program(rng, prof) for _ in range(ctx.n(100))]
+    stateful(ctx, res, "worklist-aspirate-dispense", progs, ["ledger"])
     return res
 
 
@@ -535,6 +540,15 @@ def fn_partition_volume(ctx, res):
                 v = k * M + d
                 if v >= 0:
                     pairs.add((v, M))
+    # a hair above / below an exact multiple (relative 2^-32, absolute 2^-20; all exactly representable in binary64):
+    # the number of steps is ceil(v / M), not a rounded ratio
+    for M in Ms:
+        if M.denominator == 1:
+            for k in range(1, 5):
+                for e in (F(1, 2**32), -F(1, 2**32)):
+                    pairs.add((k * M * (1 + e), M))
+                for d in (F(1, 2**20), -F(1, 2**20)):
+                    pairs.add((k * M + d, M))
     while len(pairs) < ctx.n(1500):
         M = rng.choice(Ms) if rng.random() < 0.6 else G.grid(rng, F(1, 8), 1200)
         if M <= 0:
@@ -663,7 +677,10 @@ def register(pid, run, **kw):
 
 
 register("C01", run_C01, module="Robotools.Props.C01",
-         theorems=["Robotools.C01." + t for t in ("replay_volumes", "match_vol", "record_address", "roundHalfEven_close", "render_vol_close")]
+         theorems=["Robotools.C01." + t for t in ("replay_volumes", "match_vol", "record_address", "roundHalfEven_close", "render_vol_close",
+                                                  "step_amounts", "replay_composition", "amount_well")]
+                  + ["Robotools.Amt." + t for t in ("amtOf_amtMerge", "take_amt", "put_amt", "interp_asp_amt", "interp_disp_amt", "asp1", "disp1",
+                                                    "ablock_pair", "ablock_compileTransfer", "compile_ablock", "amtOK_ofLabs")]
                   + ["Robotools.RP." + t for t in ("wellOf_pos", "interp_asp", "interp_disp", "asp_core", "disp_core", "compile_safe")],
          rule="generated worklist programs (1-8 ops, 1-3 labware); non-trivial = contains an accepted liquid-moving operation; distinct by canonical JSON")
 register("C02", run_C02, module="Robotools.Props.C02",
@@ -1431,7 +1448,12 @@ def gen_ctor_spec(rng):
         elif fault == "too_many_rows":
             spec["rows"] = rng.choice([27, 30, 40]); spec["init"] = None; spec["names"] = {}
         elif fault == "vrows_multi" and rows > 1:
-            spec["vrows"] = 4
+            # virtual rows on multi-row labware: any value, including the falsy and the out-of-range ones
+            spec["vrows"] = rng.choice([4, 1, 2, 0, 0, -1, 27, proto.Bad(2.5), proto.Bad(0.0)])
+        elif fault == "vrows" and rows == 1:
+            # a trough declared through the generic constructor with an unusable number of virtual rows
+            spec["vrows"] = rng.choice([0, -1, 27, 30, proto.Bad(2.5)])
+            spec["names"] = {}
         elif fault == "init_neg":
             spec["init"] = ("V", [F(-1)] + [F(0)] * (n - 1)); spec["names"] = {}
         elif fault == "init_big":
@@ -1451,7 +1473,8 @@ def gen_ctor_spec(rng):
         elif fault == "names_unknown":
             spec["names"] = dict(names, **{rng.choice(["Z99", G.wid(rows, 0) if rows < 26 else "A999", "A1"]): "ghost"})
         elif fault in ("vrows", "colnames_len", "colnames_empty", "vrows_multi"):
-            fault = None
+            if not ((fault == "vrows_multi" and rows > 1) or (fault == "vrows" and rows == 1)):
+                fault = None
         spec["fault"] = fault
         return spec
     vrows = rng.choice([1, 2, 4, 8, 16, 26])
@@ -1581,8 +1604,9 @@ register("C20", run_C20, module="Robotools.Props.C20",
 
 # ------------------------------------------------------------------ C09 records
 def gen_record_program(rng):
-    cfg = {"dev": rng.choice(["evo", "fluent", "base"]), "max_volume": rng.choice([F(950), F(100), F(1000)]),
+    cfg = {"dev": rng.choice(["evo", "fluent", "base"]), "max_volume": rng.choice([F(950), F(100), F(1000), F(100000)]),
            "auto_split": True, "diti_mode": rng.random() < 0.3}
+    big = [F(98765, 8), F(20001, 2), F(87654321, 1024)] if cfg["max_volume"] >= 100000 else []    # 12345.625, 10000.5, 85599.9228515625
     ops = []
     T = lambda n=40, semi=0.0: G.rand_text(rng, n, allow_semicolon=rng.random() < semi)
     for _ in range(rng.randint(1, 10)):
@@ -1599,14 +1623,14 @@ def gen_record_program(rng):
                 kw["tip"] = rng.choice([("single", ("int", rng.randint(1, 8))), ("many", [("int", rng.randint(1, 8)) for _ in range(rng.randint(0, 4))]),
                                         ("single", ("member", rng.choice([-1, 1, 2, 4, 8, 16, 32, 64, 128])))])
             op = {"op": rng.choice(["aspirate_well", "dispense_well"]), "rack_label": T(32) or "L", "position": rng.randint(0, 400),
-                  "vol": rng.choice([F(0), G.grid(rng, 0, cfg["max_volume"]), cfg["max_volume"], F(1, 8), F(3, 8), F(5, 8), F(201, 8)]), "kw": kw}
+                  "vol": rng.choice([F(0), G.grid(rng, 0, cfg["max_volume"]), cfg["max_volume"], F(1, 8), F(3, 8), F(5, 8), F(201, 8)] + big), "kw": kw}
             if fault:
                 f = rng.choice(["label_len", "label_semi", "pos_neg", "pos_bad", "vol_neg", "vol_big", "vol_max", "lc", "rid", "rid_len", "tid", "rtype", "frt", "tip0", "tip9", "tipany", "tipbad"])
                 if f == "label_len": op["rack_label"] = "x" * 33
                 elif f == "label_semi": op["rack_label"] = "a;b"
                 elif f == "pos_neg": op["position"] = -1
                 elif f == "pos_bad": op["position"] = proto.Bad(rng.choice([1.0, "1", None]))
-                elif f == "vol_neg": op["vol"] = -F(1, 2)
+                elif f == "vol_neg": op["vol"] = -rng.choice([F(1, 2), F(1), F(1, 256), F(1, 2**20), F(1, 2**40)])   # also negative volumes that round to -0.00
                 elif f == "vol_big": op["vol"] = F(7158279)
                 elif f == "vol_max": op["vol"] = cfg["max_volume"] + rng.choice([F(1, 8), F(1, 128), F(1)])
                 elif f == "lc": kw["liquid_class"] = "x;y"
@@ -1624,7 +1648,7 @@ def gen_record_program(rng):
             excl = sorted(set(rng.sample(range(ds, de + 1), min(de - ds + 1, rng.randint(0, 5))))) if rng.random() < 0.6 else []
             if rng.random() < 0.5:
                 rng.shuffle(excl)
-            v = rng.choice([F(25), proto.PyInt(100), G.grid(rng, 0, cfg["max_volume"]), F(25, 2), F(1, 8), proto.PyInt(0)])
+            v = rng.choice([F(25), proto.PyInt(100), G.grid(rng, 0, cfg["max_volume"]), F(25, 2), F(1, 8), proto.PyInt(0)] + big + big)
             op = {"op": "reagent_distribution", "src_label": T(32) or "T", "src_start": rng.randint(1, 8), "src_end": rng.randint(8, 16),
                   "dst_label": T(32) or "P", "dst_start": ds, "dst_end": de, "vol": v, "diti_reuse": rng.choice([1, 2, 6]),
                   "multi_disp": rng.choice([1, 2, 6, 12, 50]), "exclude": excl, "liquid_class": T(20),
@@ -1641,7 +1665,7 @@ def gen_record_program(rng):
                         rng.shuffle(op["exclude"])
                 elif f == "lc": op["liquid_class"] = "a;b"
                 elif f == "label": op[rng.choice(["src_label", "dst_label"])] = rng.choice(["x" * 33, "a;b"])
-                elif f == "vol_neg": op["vol"] = -F(1)
+                elif f == "vol_neg": op["vol"] = -rng.choice([F(1), F(1, 256), F(1, 2**20)])
                 elif f == "vol_max": op["vol"] = cfg["max_volume"] + rng.choice([F(1), F(1, 128)])
                 elif f == "pos": op[rng.choice(["src_start", "src_end", "dst_start", "dst_end"])] = -1; op["exclude"] = []
                 elif f == "pos_bad": op[rng.choice(["src_start", "src_end"])] = proto.Bad(1.5)
